@@ -2,6 +2,7 @@ mod clvmgen;
 mod common;
 mod engines;
 mod gen;
+mod mutate;
 mod progs;
 mod refi;
 mod shrink;
